@@ -131,23 +131,42 @@ def r2(R, m, methods):
     R.rule("C17.R2", "filter / reorder / copyrows apply one loop-invariant selector to an iteration over the whole storage; "
                      "filter updates nrows from the result before re-synchronising; sortby/removerows go through reorder/filter")
     for name, selname in (("filter", None), ("reorder", None), ("copyrows", None)):
-        fn = methods.get(name)
-        if fn is None:
+        if methods.get(name) is None:
             R.fail("columnfile.%s vanished" % name)
+        fn = m.ifunc("%s.%s" % (CLS, name), keep=("set_attributes", "filter", "reorder"))   # helpers inlined, counting whiles as for loops
         loops = []
         for n in ast.walk(fn):
             if isinstance(n, ast.For):
                 it = n.iter
                 if is_self_data(it) or (isinstance(it, ast.Call) and pyfacts.dotted(it.func) == "enumerate" and it.args and is_self_data(it.args[0])):
                     loops.append(("for", n))
+                elif isinstance(it, ast.Call) and pyfacts.dotted(it.func) == "range" and len(it.args) in (1, 2) and \
+                        pyfacts.resolved_src(fn, it.args[-1], 3, keep=("self",)).replace(" ", "") == "len(self.__data)" and (len(it.args) == 1 or src(it.args[0]) == "0") \
+                        and isinstance(n.target, ast.Name):
+                    loops.append(("index", n))
             if isinstance(n, ast.ListComp) and len(n.generators) == 1 and is_self_data(n.generators[0].iter):
                 loops.append(("comp", n))
+        recognised = {id(n) for k_, n in loops}
+        for n in ast.walk(fn):
+            its = [n.iter] if isinstance(n, ast.For) else ([g.iter for g in n.generators] if isinstance(n, (ast.ListComp, ast.GeneratorExp)) else [])
+            for it in its:
+                if id(n) not in recognised and any(is_self_data(x) for x in ast.walk(pyfacts.resolved(fn, it, 3, keep=("self",)))):
+                    R.check(False, "C17.R2", REL, n.lineno, "columnfile.%s" % name, "iteration over %s" % src(it),
+                            "the row operation iterates over something derived from the storage that is not the whole of self.__data: columns are skipped or visited twice")
+        R.shape(len(loops) >= 1, "C17.R2", REL, "columnfile.%s" % name, "an iteration over the whole of self.__data")
         R.check(len(loops) == 1, "C17.R2", REL, fn.lineno, "columnfile.%s" % name, "iteration over the whole of self.__data (%d found)" % len(loops),
                 "the row operation must visit every column exactly once")
         if len(loops) != 1:
             continue
         kind, node = loops[0]
-        if kind == "for":
+        if kind == "index":
+            ivar = node.target.id
+            subs = [x for x in ast.walk(node) if isinstance(x, ast.Subscript) and isinstance(x.ctx, ast.Load) and isinstance(x.value, ast.Subscript)
+                    and is_self_data(x.value.value) and src(x.value.slice) == ivar]
+            body_assigned = set(x.id for s in node.body for x in ast.walk(s) if isinstance(x, ast.Name) and isinstance(x.ctx, ast.Store))
+            colvar = ivar
+            kind = "for"
+        elif kind == "for":
             tnames = [x.id for x in ast.walk(node.target) if isinstance(x, ast.Name)]
             colvar = tnames[-1]
             subs = [x for x in ast.walk(node) if isinstance(x, ast.Subscript) and isinstance(x.value, ast.Name) and x.value.id == colvar
@@ -282,12 +301,11 @@ def r4(R, m, methods):
     R.rule("C17.R4", "copy() and copyrows() hand the new object freshly allocated columns (.copy(), np.array(...)); a bare "
                      "col[rows] may be a view when rows is a slice")
     for name in ("copy", "copyrows"):
-        fn = methods.get(name)
-        if fn is None:
+        if methods.get(name) is None:
             R.fail("columnfile.%s vanished" % name)
+        fn = m.ifunc("%s.%s" % (CLS, name), keep=("chkarray", "set_attributes", "bigarray", "set_bigarray"))   # private helpers read as if written here
         comps = [n for n in ast.walk(fn) if isinstance(n, ast.ListComp) and len(n.generators) == 1 and is_self_data(n.generators[0].iter)]
-        R.check(len(comps) == 1, "C17.R4", REL, fn.lineno, "columnfile.%s" % name, "new columns built from self.__data (%d comprehension)" % len(comps),
-                "cannot find where the new object's columns are built")
+        R.shape(len(comps) == 1, "C17.R4", REL, "columnfile.%s" % name, "the comprehension over self.__data that builds the new object's columns")
         for c in comps:
             colvar = src(c.generators[0].target)
             ok = fresh(c.elt, colvar)
@@ -308,9 +326,9 @@ def r4(R, m, methods):
 def r5(R, m, methods):
     R.rule("C17.R5", "writefile, filter, copy, copyrows call chkarray() before the first read of self.__data")
     for name in ("writefile", "filter", "copy", "copyrows"):
-        fn = methods.get(name)
-        if fn is None:
+        if methods.get(name) is None:
             R.fail("columnfile.%s vanished" % name)
+        fn = m.ifunc("%s.%s" % (CLS, name), keep=("chkarray", "set_attributes"))
         cfg = pyfacts.PyCFG(fn)
         chk = [s for s in ast.walk(fn) if isinstance(s, ast.Expr) and isinstance(s.value, ast.Call) and pyfacts.dotted(s.value.func) == "self.chkarray"]
         R.check(len(chk) >= 1, "C17.R5", REL, fn.lineno, "columnfile.%s" % name, "self.chkarray() called", "chkarray() call removed")
